@@ -389,6 +389,9 @@ class CasXmiDeserializer:
         # arrays. Now we convert them to proper UIMA arrays/lists
         if not typesystem.is_primitive_array(type_name):
             for feature_name, feature_value in children.items():
+                # Features with a reserved Python name have been remapped above
+                if feature_name == "self" or feature_name == "type":
+                    feature_name = feature_name + "_"
                 feature = AnnotationType.get_feature(feature_name)
                 if typesystem.is_primitive_array(feature.rangeType):
                     ArrayType = feature.rangeType
